@@ -9,7 +9,7 @@ import threading
 import time
 
 from vlib import schedfuzz, watch
-from vlib.targets import Boom, Reject, norm_exc
+from vlib.targets import Boom, CancelLike, Reject, norm_exc
 
 PROPERTY = 'C05'
 LEVEL = 'fault_enumeration'
@@ -39,6 +39,8 @@ def gen_cases(tier, seed):
         for p in (0, 1, 2, 4):
             fails.append(('source', p, 'Boom'))
             fails.append(('source', p, 'StopRequested'))
+            if p in (0, 2):
+                fails.append(('source', p, 'CancelLike'))  # a failure class outside the Exception hierarchy (framework cancellation, SystemExit ...)
         if shape not in ('buffer', 'abuffer', 'synciter', 'asynciter', 'synciter(abuffer)', 'asynciter(buffer)'):
             fails += [('func', p, 'Boom') for p in (0, 2, 4)]
             fails += [('func2', 1, 'Boom')]  # two failing elements: the first in stream order must win
@@ -145,7 +147,7 @@ def make_source(S, case, stats):
 
     exc = None
     if site == 'source':
-        exc = Boom('src', p) if kind == 'Boom' else StopRequested()
+        exc = Boom('src', p) if kind == 'Boom' else (CancelLike('src', p) if kind == 'CancelLike' else StopRequested())
 
     stall = case.get('stall')
 
@@ -245,7 +247,7 @@ def expected(case, items):
         return out, ('RAISED', norm_exc(Boom('actx', 0)))
     for i, x in enumerate(items):
         if site in ('source', 'iterq-stop') and i == p:
-            return out, ('RAISED', 'StopRequested' if kind == 'StopRequested' else norm_exc(Boom('src', p)))
+            return out, ('RAISED', 'StopRequested' if kind == 'StopRequested' else norm_exc(CancelLike('src', p) if kind == 'CancelLike' else Boom('src', p)))
         if site == 'map' and x == p:
             return out, ('RAISED', norm_exc(Boom('map', x)))
         if site == 'func' and x == p:
@@ -256,7 +258,7 @@ def expected(case, items):
             return out, ('RAISED', norm_exc(Reject(x)))
         out.append(wrap(x))
     if site in ('source', 'iterq-stop') and p >= len(items):
-        return out, ('RAISED', 'StopRequested' if kind == 'StopRequested' else norm_exc(Boom('src', p)))
+        return out, ('RAISED', 'StopRequested' if kind == 'StopRequested' else norm_exc(CancelLike('src', p) if kind == 'CancelLike' else Boom('src', p)))
     return out, ('END',)
 
 
